@@ -257,9 +257,17 @@ def flux_bindown(ix, R):
     if oa is not None and oa.head == 'idx' and isinstance(oa.args[1], Slice):
         omin, sl_lo, sl_hi = oa.args[0], oa.args[1].lo, oa.args[1].hi
     else:
+        cands_ = []
         for e_ in fl.of('assign'):
-            if isinstance(e_.value, RF) and not e_.loops and tab.equal(spec(fl, 'X[1:]', {'X': e_.value}), omin1):
-                omin, sl_lo, sl_hi = e_.value, tab.const(1), None
+            if isinstance(e_.value, RF) and not e_.loops:
+                cands_.append(e_.value)
+                # ... or a member of a record built before the loop (bounds kept as a (lower, upper) pair)
+                ea_ = atom_of(fl, e_.value)
+                if ea_ is not None and ea_.head in ('call', 'tuple'):
+                    cands_.extend(x for x in ea_.args if isinstance(x, RF))
+        for v_ in cands_:
+            if tab.equal(spec(fl, 'X[1:]', {'X': v_}), omin1):
+                omin, sl_lo, sl_hi = v_, tab.const(1), None
     carried = [fmt(fl, x)[:80] for x in (ss[0].args[0], ss[1].args[0]) if x.mentions(lambda a: a.head == 'phi')]
     if carried:
         # the searched array changes from one target bin to the next: the window of a bin then depends on the bins
@@ -483,7 +491,8 @@ def _run(ix, R):
         m = ix.module(SB)
         tgt = ix.resolve_name(m, 'bindown')
         R.check('4.simple.fn', 'TAB', SB, 'bindown used by SimpleBinner is taurex.util.util.bindown',
-                getattr(tgt, 'site', None) == UU + '::bindown', key='bindown -> %s' % getattr(tgt, 'site', tgt),
+                tgt is not None and getattr(tgt, 'node', 0) is getattr(ix.func(UU + '::bindown'), 'node', 1),
+                key='bindown -> %s' % getattr(tgt, 'site', tgt),
                 detail='resolves to %s' % getattr(tgt, 'site', tgt))
     site = NB + '::NativeBinner.bindown'
     with R.guard('4.roles.native', 'SIB', site, 'native binner roles'):
